@@ -13,7 +13,7 @@ open Flute Flute.Admission
 
 /-! ## 0. facts about the reference itself -/
 
-theorem divCeil_le_of_le_mul (a b c : Nat) (hb : 0 < b) (h : a ≤ b * c) : divCeil a b ≤ c := by
+private theorem divCeil_le_of_le_mul (a b c : Nat) (hb : 0 < b) (h : a ≤ b * c) : divCeil a b ≤ c := by
   unfold divCeil
   split
   · exact Nat.div_le_of_le_mul h
@@ -42,7 +42,7 @@ def toF (o : Oti) : FdtAbs.Oti :=
   { enc := o.fec.id, inst := o.inst, maxSbl := o.maxSbl, esl := o.esl, parity := o.parity,
     scheme := o.scheme.map toFScheme }
 
-theorem relRs_refl {α : Type} (x : Rs α) : relRs (fun a b => a = b) x x := by
+private theorem relRs_refl {α : Type} (x : Rs α) : relRs (fun a b => a = b) x x := by
   cases x <;> simp [relRs]
 
 theorem maxTransferLength_link (o : Oti) :
@@ -115,19 +115,19 @@ def tailF (o : FdtAbs.Oti) (L : Nat) : Rs (Option FdtAbs.Oti) :=
             else Except.ok (some (FdtAbs.setZ o (max q.snd.snd.snd 1)))
     else Except.ok (some o)
 
-theorem setZ_link_raptor (inst maxSbl esl parity : Nat) (scheme : Option SchemeSpecific) (nb : Nat) :
+private theorem setZ_link_raptor (inst maxSbl esl parity : Nat) (scheme : Option SchemeSpecific) (nb : Nat) :
     FdtAbs.setZ { enc := 1, inst := inst, maxSbl := maxSbl, esl := esl, parity := parity,
                   scheme := Option.map toFScheme scheme } (max nb 1) =
       toF (setZ ⟨.raptor, inst, maxSbl, esl, parity, scheme⟩ nb) :=
   (setZ_link ⟨.raptor, inst, maxSbl, esl, parity, scheme⟩ nb).symm
 
-theorem setZ_link_raptorq (inst maxSbl esl parity : Nat) (scheme : Option SchemeSpecific) (nb : Nat) :
+private theorem setZ_link_raptorq (inst maxSbl esl parity : Nat) (scheme : Option SchemeSpecific) (nb : Nat) :
     FdtAbs.setZ { enc := 6, inst := inst, maxSbl := maxSbl, esl := esl, parity := parity,
                   scheme := Option.map toFScheme scheme } (max nb 1) =
       toF (setZ ⟨.raptorq, inst, maxSbl, esl, parity, scheme⟩ nb) :=
   (setZ_link ⟨.raptorq, inst, maxSbl, esl, parity, scheme⟩ nb).symm
 
-theorem tail_link (oti : Oti) (L : Nat) : toOpt (tailF (toF oti) L) = (toOpt (tailA oti L)).map outF := by
+private theorem tail_link (oti : Oti) (L : Nat) : toOpt (tailF (toF oti) L) = (toOpt (tailA oti L)).map outF := by
   obtain ⟨fec, inst, maxSbl, esl, parity, scheme⟩ := oti
   cases fec <;>
     simp only [tailA, tailF, FdtAbs.rsRefused, toF, Fec.id, FdtAbs.kMax, maxBlockSymbols, reduceCtorEq, or_self,
@@ -145,7 +145,7 @@ theorem tail_link (oti : Oti) (L : Nat) : toOpt (tailF (toF oti) L) = (toOpt (ta
 /-- the OTI `FileDesc::new` works with -/
 def chosen (dflt : Oti) (ovr : Option Oti) : Oti := match ovr with | some o => o | none => dflt
 
-theorem fileDescNew_eq (dflt : Oti) (ovr : Option Oti) (L : Nat) :
+private theorem fileDescNew_eq (dflt : Oti) (ovr : Option Oti) (L : Nat) :
     fileDescNew dflt ovr L =
       (match maxTransferLength (chosen dflt ovr) with
        | .error w => .error w
@@ -187,7 +187,7 @@ theorem effectiveOti_link (dflt : Oti) (ovr : Option Oti) (a : FdtAbs.ObjAttrs) 
 
 /-! ### the `u8` / `u16` conversion of Z can never fail -/
 
-theorem bp_nb (b l e : Nat) (q : Partition.Quad) (h : Partition.blockPartitioning b l e = .ok q) :
+private theorem bp_nb (b l e : Nat) (q : Partition.Quad) (h : Partition.blockPartitioning b l e = .ok q) :
     q.2.2.2 = 0 ∨ (0 < b ∧ 0 < e ∧ q.2.2.2 = divCeil (divCeil l e) b) := by
   unfold Partition.blockPartitioning at h
   by_cases hb : b = 0
@@ -204,7 +204,7 @@ theorem bp_nb (b l e : Nat) (q : Partition.Quad) (h : Partition.blockPartitionin
     · cases h
     · injection h with h; subst h; exact .inr ⟨by omega, by omega, rfl⟩
 
-theorem mtl_bound (o : Oti) (mtl : Nat) (h : maxTransferLength o = .ok mtl) :
+private theorem mtl_bound (o : Oti) (mtl : Nat) (h : maxTransferLength o = .ok mtl) :
     ∃ k, maxSourceBlocksNumber o.fec = .ok k ∧ mtl ≤ o.esl * o.maxSbl * k := by
   unfold maxTransferLength at h
   cases hk : maxSourceBlocksNumber o.fec with
